@@ -510,7 +510,12 @@ class Driver:
         if self.real_link:
             proto = self.gw.tasks.transport.protocol
             if proto is not None:
-                proto.transport = self.conn if up else None
+                # through the protocol's own hooks, as a reader thread / the event loop would do it
+                if up:
+                    proto.connection_made(self.conn)
+                elif proto.transport is not None:
+                    proto.connection_lost(None)
+            # whatever the hooks wrote belongs to the next event's wire observation
 
     def set_child(self, n, c, t, value, ack=0, key_as_str=False):
         import voluptuous as vol
